@@ -969,7 +969,7 @@ class DataLoader(object):
                         return messages[message_idx]
                     else:
                         default = cls()
-                        default.p1_time = time_set[i]
+                        default.p1_time = Timestamp(time_set[i])
                         return default
                 data[type].messages = [_get_value(i) for i in range(len(time_set))]
         # In drop mode, drop messages that aren't present across _all_ message types.
